@@ -7,6 +7,7 @@ CONSTANTS
  FamStreams <- FamStreamsT  FamBase = 3  FamGroups <- FamGroupsT
  ParkA <- ParkAT  ParkB <- ParkBT
  EncN <- EncNQ
+ HashU <- NoValues  HashV <- NoValues
  Volume = FALSE
  MinSteps = 1  MaxSteps = 2
 VIEW View
